@@ -159,6 +159,7 @@ def errJson : Option Err → Json
 
 def handle (op : String) (j : Json) : Option Json :=
   match op with
+  | "noop" => some (obj [])
   | "batch.run" =>
     match (getArr j "ops").mapM opOfJson with
     | none => some (errJ "bad-op")
